@@ -10,7 +10,7 @@ from common import driver, proof_stage
 import subgen
 from c15 import run_calls, stats
 
-MODULES = ["CobyqaVerif.Props.C16", "CobyqaVerif.Props.C15Loop", "CobyqaVerif.Props.C15Improve", "CobyqaVerif.Props.C16Cauchy", "CobyqaVerif.Props.C16Spider"]
+MODULES = ["CobyqaVerif.Props.C16", "CobyqaVerif.Props.C15Loop", "CobyqaVerif.Props.C15Improve", "CobyqaVerif.Props.C16Cauchy", "CobyqaVerif.Props.C16CauchyDir", "CobyqaVerif.Props.C16Spider"]
 LEVEL = "proof"
 OWN = ("model-increased", "violation-increased", "magnitude-decreased")
 EPS = subgen.EPS
@@ -167,6 +167,54 @@ def cauchy_correspondence(rng, n_gen):
     return {"cases_with_the_corner_inside_the_ball": len(cases), "agree": agree, "mismatches": len(mism)}, mism
 
 
+def cauchy_full_correspondence(rng, n_gen):
+    """Tie of lean/CobyqaVerif/Alg/CauchyDir.lean + Alg/Cauchy.lean (`cauchyFull`: the WHOLE of cauchy_geometry, the
+    rescaling loop of the Cauchy direction included) to the code: on every generated input the model, run in exact
+    rational arithmetic with the binary64 square root of the exact argument for np.sqrt, must return the step of the real
+    cauchy_geometry (1e-6 relative; when the two candidates tie in |q| either is accepted)."""
+    import warnings
+    import exact
+    import cobyqa.subsolvers as S
+    lines, cases = [], []
+    for _ in range(n_gen):
+        c = subgen.gen(rng, "cauchy")
+        xl, xu = np.minimum(c["xl"], 0.0), np.maximum(c["xu"], 0.0)
+
+        def rl(v):
+            return " ".join(exact.rs(Fr(float(x))) for x in np.atleast_1d(v))
+
+        def ol(v):
+            return " ".join("none" if not np.isfinite(x) else exact.rs(Fr(float(x))) for x in v)
+        lines.append(f"cauchy2 {c['n']} {c['n'] + 2} | {rl(c['const'])} ; {rl(c['g'])} ; {rl(c['H'].ravel())} ; {ol(xl)} ; {ol(xu)} ; {rl(c['delta'])}")
+        cases.append(c)
+    ans = exact.driver_alg(lines) if lines else []
+    agree, mism, looped = 0, [], 0
+    for c, a in zip(cases, ans):
+        with warnings.catch_warnings(), np.errstate(all="ignore"):
+            warnings.simplefilter("ignore")
+            s = S.cauchy_geometry(c["const"], c["g"], lambda v: float(v @ c["H"] @ v), c["xl"].copy(), c["xu"].copy(), c["delta"], False)
+        xl, xu = np.minimum(c["xl"], 0.0), np.maximum(c["xu"], 0.0)
+        for gr in (c["g"], -c["g"]):
+            d = np.where((xl < 0) & (gr < 0), xl, np.where((xu > 0) & (gr > 0), xu, 0.0))
+            if not np.all(np.isfinite(d)) or np.linalg.norm(d) > c["delta"]:
+                looped += 1
+                break
+        if not a.startswith("ok"):
+            mism.append((c, "driver answered " + a[:40]))
+            continue
+        m = np.array([float(Fr(t)) for t in a.split()[1:]])
+        sc = max(float(np.linalg.norm(s)), float(np.linalg.norm(m)), 1e-300)
+        if float(np.linalg.norm(m - s)) <= 1e-6 * sc:
+            agree += 1
+        else:
+            q = lambda v: abs(c["const"] + float(c["g"] @ v) + 0.5 * float(v @ c["H"] @ v))  # noqa
+            if abs(q(m) - q(s)) <= 1e-9 * max(q(m), q(s), 1e-300):
+                agree += 1
+            else:
+                mism.append((c, f"exact model step {m.tolist()} vs implementation {np.asarray(s).tolist()}"))
+    return {"cases": len(cases), "cases_that_enter_the_rescaling_loop": looped, "agree": agree, "mismatches": len(mism)}, mism
+
+
 def spider_correspondence(rng, n_gen):
     """Tie of lean/CobyqaVerif/Alg/Spider.lean (the whole of spider_geometry) to the code: the model, run in exact rational
     arithmetic on the same data, lines and (rounded-up) norms, must return the step of the real spider_geometry; when two
@@ -268,7 +316,9 @@ def run(chk, rng, replay=None):
     chk.coverage["cauchy_geometry_model_correspondence"] = cstat
     sstat, smism = spider_correspondence(rng, 200 if chk.tier == "quick" else 4000) if replay is None else ({}, [])
     chk.coverage["spider_geometry_model_correspondence"] = sstat
-    cmism = cmism + smism
+    fstat, fmism = cauchy_full_correspondence(rng, 200 if chk.tier == "quick" else 4000) if replay is None else ({}, [])
+    chk.coverage["whole_cauchy_geometry_correspondence_rescaling_loop_included"] = fstat
+    cmism = cmism + smism + fmism
     chk.assumptions += ["kernel theorems are exact-arithmetic; the loops of the solvers are covered by the sampled calls only",
                         "the projected-gradient Cauchy reference is computed by the harness (exact rational model values, step shortened by 1e-9 to stay feasible)"]
     reported = 0
